@@ -184,6 +184,9 @@ Qed.
 Theorem C14_source_adevice_hess : forall n bnd cb (g : fn R) ucs (s p : list R),
   ADevice_hess (fobj_of g) s p = leaf_hess (Build_leafdev n bnd cb (KA g ucs)) s.
 Proof. intros n bnd cb g ucs s p. exact (gen_adevice_hess n bnd cb g ucs s p). Qed.
+Theorem C14_source_demand_function_hess : forall (c x : list R), DemandFunction_hess c x = fhess (FDemand c) x.
+Proof. intros c x. exact (gen_demand_hess c x). Qed.
+
 
 
 (* ---- the two instances agree on the reported Hessian (Proofs/HomHess.v): what the correspondence evaluates on exact rationals maps
